@@ -3,7 +3,8 @@ import GoPlugin.Model.Resources
 import GoPlugin.Generated.Facts
 /-
 C18 model driver.  One case = one configuration and one history
-(`ops` = comma list of d | c | e | p), followed by a graceful Kill.  Output: the
+(`ops` = comma list of d | c | e | p), optionally `pre=close` (the host calls
+`ClientProtocol.Close()` and waits for `Exited()`), followed by Kill.  Output: the
 ledger after the history AT THE EXTRACTED FACTS, in the harness's vocabulary:
 
   ok left=<files that remain> gor=<host goroutines never released>[ may=<files that lose a race only sometimes>]
@@ -63,7 +64,9 @@ def run (_tag : String) (kv : KV) : String :=
   match proto?, launch?, (commaList (kv.getD "ops" "_")).mapM opOf with
   | some proto, some launch, some ops =>
     let c : Cfg := ⟨proto, boolOf (kv.getD "mux" "0"), boolOf (kv.getD "auto" "0"), launch⟩
-    let led := ledgerAfter Facts.resources ⟨true⟩ c ops
+    -- `pre=close`: the host closed the protocol client itself and the plugin had exited before Kill
+    let k : AtKill := if kv.getD "pre" "-" = "close" then .exited else .running
+    let led := ledgerAfterK Facts.resources ⟨true⟩ c ops k
     let files (st : Status) := led.filterMap fun e =>
       match e.res with
       | .file k => if e.status = st then some (fileName c k) else none
